@@ -690,6 +690,13 @@ class Tr:
             return self.nested_call(name, node)
         if name in self.unit.targets:
             return self.target_call(name, node)
+        if name in self.unit.pinned:                      # a function that is only pinned as text: its meaning is the model helper
+            cfg = self.unit.pinned[name]
+            fn = self.unit.fns.get(name)
+            if fn is None:
+                raise Shape("function %s not found" % name)
+            args = self.call_args(fn, node, cfg["params"])
+            return V(" ".join([cfg["model"]] + [paren(a, 100) for a in args]), cfg["ret"], 90)
         raise Shape("call of %s is not in the translator's tables" % (name or ast.unparse(f)[:40]))
 
     def dtype_arg(self, node):
@@ -1211,6 +1218,7 @@ class Unit:
         self.src, self.tree = src, tree
         self.fns = {n.name: n for n in tree.body if isinstance(n, ast.FunctionDef)}
         self.targets = {c["func"]: c for c in TARGETS if c.get("region", "function") == "function"}
+        self.pinned = {c["func"]: c for c in TARGETS if c.get("region") == "pin" and c.get("model")}
         self.aux, self.conversions, self.seen, self.while_count, self.nested_caps = [], [], set(), {}, {}
         self.scope = []
 
@@ -1400,35 +1408,11 @@ FILES = {KEY: (PYFILE, "SrcMGH.lean", "PersimVerif.Src.gromov_hausdorff_mgh",
                "PersimVerif.MGH PersimVerif.SrcNp PersimVerif.SrcBridge.MGH")}
 BRIDGES = ["PersimVerif/Lemmas/SrcLibNp.lean", "PersimVerif/Lemmas/SrcBridgeMGH.lean"]
 
+from .py2lean_mgh_proofs import OBLIGATIONS  # noqa: E402   (statements and proof scripts, per target)
+
 TARGETS = []
 
 # ---- check_assignment_feasibility (with the nested next_i_and_j, next_j)  ->  checkAssignmentFeasibility
-FEAS_LOOP_EQ = (
-    "by\n  intro fuel\n  induction fuel with\n  | zero => intro rv ru i j _ _ h; omega\n  | succ fuel ih =>\n"
-    "    intro rv ru i j hi hj hm\n    rw [check_assignment_feasibility_loop, feasLoop]\n"
-    "    simp only [getItem_of_lt hi, getItem_of_lt hj]\n    split\n"
-    "    · simp only [setItem_of_lt _ hj, setItem_of_lt _ hi, src_next_i_and_j_eq_model d hd]\n      split\n"
-    "      · rename_i x hx; simp only [hx, nextIAndJ_none hx, check_assignment_feasibility_loop_exit_i]; rfl\n"
-    "      · rename_i i' hx; simp only [hx, check_assignment_feasibility_loop_exit_j]; rfl\n"
-    "      · rename_i i' j' hx\n        simp only [hx]\n        obtain ⟨h1, h2, h3, h4⟩ := nextIAndJ_step hx\n"
-    "        simp only [List.length_set] at h4\n"
-    "        exact ih _ _ i' j' (by simpa using h2) (by simpa using h4) (by simp only [List.length_set]; omega)\n"
-    "    · simp only [setItem_of_lt _ hj, setItem_of_lt _ hi, src_next_j_eq_model d hd]\n      split\n"
-    "      · rename_i hx; simp only [hx, check_assignment_feasibility_loop_exit_j]; rfl\n"
-    "      · rename_i j' hx\n        simp only [hx]\n        obtain ⟨h1, h2⟩ := nextJ_step hx\n"
-    "        exact ih _ _ i j' (by simpa using hi) (by simpa using h2) (by simp only [List.length_set]; omega)")
-FEAS_EQ = (
-    "by\n  unfold check_assignment_feasibility checkAssignmentFeasibility\n  simp only [src_next_i_and_j_eq_model d hd]\n"
-    "  generalize hx : nextIAndJ (d - 1) v.reverse u.reverse 0 0 = r\n  obtain ⟨oi, oj⟩ := r\n  cases oi with\n"
-    "  | none => simp only [check_assignment_feasibility_loop_exit_i, nextIAndJ_none hx]; rfl\n  | some i =>\n    cases oj with\n"
-    "    | none => simp only [check_assignment_feasibility_loop_exit_j]; rfl\n    | some j =>\n"
-    "      obtain ⟨hfp, hnj⟩ := nextIAndJ_some hx\n      obtain ⟨_, hil, _, _⟩ := firstPos_some hfp\n"
-    "      obtain ⟨_, _, hjl, _, _⟩ := nextJ_some hnj.symm\n"
-    "      have := check_assignment_feasibility_loop_eq d hd (v.reverse.length + u.reverse.length + 1) v.reverse u.reverse i j hil hjl (by omega)\n"
-    "      revert this\n"
-    "      cases check_assignment_feasibility_loop d (v.reverse.length + u.reverse.length + 1) v.reverse u.reverse (some i) (some j) with\n"
-    "      | error e => intro h; cases h\n      | ok r => intro h; simpa [Except.map] using h")
-
 TARGETS.append(dict(
     func="check_assignment_feasibility", lean="check_assignment_feasibility",
     params=[("v_distribution", L(N)), ("u_distribution", L(N)), ("d", N)], ret=B,
@@ -1436,38 +1420,7 @@ TARGETS.append(dict(
             "next_j": dict(params=[("i", N), ("min_j", N)], ret=O(N), local_types={"j": O(N)})},
     while_bounds=["len(reversed_v_distribution) + len(reversed_u_distribution) + 1"],
     skeleton="...", conversions=["int(d)"],
-    obligations=[
-        ("src_next_j_eq_model", "(d : Nat) (hd : 1 ≤ d) (ru : List Nat) (i minJ : Nat)",
-         "next_j d ru i minJ = .ok (nextJ (d - 1) ru i minJ)",
-         "by\n  unfold next_j nextJ\n  rw [nextWhere_pos_pyRange _ _ _ (by omega)]\n"
-         "  have e : (min ((i : Int) + ((d : Int) - 1)) ((ru.length : Int) - 1) + 1).toNat = min (i + (d - 1) + 1) ru.length := by omega\n"
-         "  rw [e]\n  cases firstPos ru minJ (min (i + (d - 1) + 1) ru.length) <;> rfl",
-         "the nested `next_j` (generator over the window `range(min_j, min(i + (d - 1), len(u) - 1) + 1)`, `StopIteration` turned into "
-         "`None`) never raises `IndexError` and is the model's `nextJ` with `w = d - 1`, for `d ≥ 1` (the docstring's `d > 0`)"),
-        ("src_next_i_and_j_eq_model", "(d : Nat) (hd : 1 ≤ d) (rv ru : List Nat) (minI minJ : Nat)",
-         "next_i_and_j d rv ru minI minJ = .ok (nextIAndJ (d - 1) rv ru minI minJ)",
-         "by\n  unfold next_i_and_j nextIAndJ\n  rw [nextWhere_pos_pyRange _ _ _ (by omega)]\n  simp only [Int.toNat_natCast]\n"
-         "  cases firstPos rv minI rv.length with\n  | none => rfl\n  | some i =>\n    simp only [src_next_j_eq_model d hd]\n"
-         "    have e : (max ((i : Int) - ((d : Int) - 1)) (minJ : Int)).toNat = max (i - (d - 1)) minJ := by omega\n    rw [e]",
-         "the nested `next_i_and_j` (try / except StopIteration / else) is the model's `nextIAndJ`"),
-        ("check_assignment_feasibility_loop_exit_i", "(d fuel : Nat) (rv ru : List Nat) (j : Option Nat)",
-         "check_assignment_feasibility_loop d fuel rv ru none j = .ok (rv, ru, none, j)", "by\n  cases fuel <;> rfl",
-         "the loop exits when `i is None`"),
-        ("check_assignment_feasibility_loop_exit_j", "(d fuel : Nat) (rv ru : List Nat) (i : Option Nat)",
-         "check_assignment_feasibility_loop d fuel rv ru i none = .ok (rv, ru, i, none)", "by\n  cases fuel <;> cases i <;> rfl",
-         "the loop exits when `j is None`"),
-        ("check_assignment_feasibility_loop_eq", "(d : Nat) (hd : 1 ≤ d)",
-         "∀ (fuel : Nat) (rv ru : List Nat) (i j : Nat), i < rv.length → j < ru.length → (rv.length - i) + (ru.length - j) < fuel →\n"
-         "      (check_assignment_feasibility_loop d fuel rv ru (some i) (some j)).map (fun r => r.2.2.2.isSome)\n"
-         "        = .ok (feasLoop (d - 1) fuel rv ru i j)", FEAS_LOOP_EQ,
-         "the `while i is not None and j is not None` loop, started at in-range indices with a bound larger than "
-         "`(len v - i) + (len u - j)`, raises nothing, does not exhaust the bound, and ends with `j is not None` equal to the model's "
-         "`feasLoop` (induction on the bound; every round moves `i` or `j` up)"),
-        ("src_check_assignment_feasibility_eq_model", "(v u : List Nat) (d : Nat) (hd : 1 ≤ d)",
-         "check_assignment_feasibility v u d = .ok (checkAssignmentFeasibility v u d)", FEAS_EQ,
-         "`check_assignment_feasibility(v_distribution, u_distribution, d)` for every pair of distributions and every `d ≥ 1`: no "
-         "exception, termination within `len(v) + len(u) + 1` rounds, and the model's answer"),
-    ]))
+    obligations=OBLIGATIONS["check_assignment_feasibility"]))
 
 # ---- represent_distance_matrix_rows_as_distributions  ->  rowsAsDistributions
 TARGETS.append(dict(
@@ -1475,50 +1428,51 @@ TARGETS.append(dict(
     params=[("DX", MAT), ("max_d", N)], ret=MAT, skeleton="...",
     conversions=["determine_optimal_int_type(len(DX))", "int(max_d)", "np.zeros((len(DX), int(max_d) + 1), dtype=optimal_int_type)",
                  "np.imag(unique_distances).astype(optimal_int_type)", "np.real(unique_distances).astype(max_d.dtype)"],
-    obligations=[
-        ("src_represent_distance_matrix_rows_as_distributions_eq_model",
-         "(DX : List (List Nat)) (max_d : Nat) (h : ∀ row ∈ DX, ∀ x ∈ row, x ≤ max_d)",
-         "represent_distance_matrix_rows_as_distributions DX max_d = .ok (rowsAsDistributions DX max_d)",
-         "by\n  obtain ⟨M, h1, h2⟩ := represent_scatter DX max_d h\n"
-         "  simp only [represent_distance_matrix_rows_as_distributions, h1, h2]",
-         "`np.unique` of the row-tagged entries with counts, the scatter of the counts at `(row, max_d - distance)` into the zero "
-         "matrix and the removal of the last column (distance 0): for a matrix whose entries are `≤ max_d` (the docstring's "
-         "precondition; `find_lb` passes `max_diam`) no index is out of range or negative, and the result is the model's "
-         "`rowsAsDistributions` (each row: the frequencies of the distances `max_d, …, 1`)"),
-    ]))
+    obligations=OBLIGATIONS["represent_distance_matrix_rows_as_distributions"]))
 
 # ---- find_largest_size_bounded_curvature  ->  largestBoundedCurvature exactMul
 TARGETS.append(dict(
     func="find_largest_size_bounded_curvature", lean="find_largest_size_bounded_curvature",
     params=[("DX", MAT), ("diam_X", N), ("d", N)], ret=MAT, skeleton="...", conversions=["int(diam_X)"],
     while_bounds=["len(DX)"],
-    obligations=[
-        ("find_largest_size_bounded_curvature_loop_eq", "(diam_X d : Nat)",
-         "∀ (fuel : Nat) (K : List (List Nat)) (idx : List Nat), Sq K → K.length ≤ fuel →\n"
-         "      find_largest_size_bounded_curvature_loop diam_X d fuel K = .ok (curvLoop exactMul diam_X d fuel K idx).1",
-         "by\n  intro fuel\n  induction fuel with\n  | zero =>\n    intro K idx hK hl\n"
-         "    have : K = [] := List.length_eq_zero_iff.1 (by omega)\n    subst this\n    rfl\n  | succ fuel ih =>\n"
-         "    intro K idx hK hl\n    rw [find_largest_size_bounded_curvature_loop, curvLoop, anyUpperLt_eq hK]\n"
-         "    by_cases hc : anyUpperLess 0 K d = true\n"
-         "    · obtain ⟨h1, h2, h3, h4, h5⟩ := curv_step hK diam_X d hc\n      simp only [hc, if_true, h1, h2, h3]\n"
-         "      exact ih _ _ h4 (by omega)\n    · simp only [hc]; rfl",
-         "the `while np.any(K[np.triu_indices_from(K, 1)] < d)` loop on a square `K` with at least `len(K)` rounds allowed: "
-         "`np.argmin` and the two `np.delete` never raise, the bound is not exhausted, and the result is the curvature of the "
-         "model's `curvLoop` with the exact key product `len(K) * int(diam_X)` (`exactMul`)"),
-        ("src_find_largest_size_bounded_curvature_eq_model", "(DX : List (List Nat)) (diam_X d : Nat) (hX : Sq DX)",
-         "find_largest_size_bounded_curvature DX diam_X d = .ok (largestBoundedCurvature exactMul DX diam_X d).1",
-         "by\n  unfold find_largest_size_bounded_curvature largestBoundedCurvature\n"
-         "  simp only [find_largest_size_bounded_curvature_loop_eq diam_X d DX.length DX (List.range DX.length) hX (Nat.le_refl _)]",
-         "`find_largest_size_bounded_curvature(DX, diam_X, d)` on a square matrix: no exception, termination within `len(DX)` rounds, "
-         "and the model's curvature (the model's second component, the kept indices, is ghost)"),
-    ]))
+    obligations=OBLIGATIONS["find_largest_size_bounded_curvature"]))
+
+# ---- find_unique_max_distributions: pinned as text; its meaning in the callers is the model's uniqueMaxDistributions
+FUMD_TEXT = (
+    "pairwise_distribution_differences = np.cumsum(distributions - distributions[:, None, :], axis=2)\n"
+    "pairwise_distribution_less_thans = np.logical_and(np.all(pairwise_distribution_differences >= 0, axis=2), "
+    "np.any(pairwise_distribution_differences > 0, axis=2))\n"
+    "distributions_are_max = ~np.any(pairwise_distribution_less_thans, axis=1)\ntry:\n"
+    "    unique_max_distributions = np.unique(distributions[distributions_are_max], axis=0)\nexcept AttributeError:\n"
+    "    unique_max_distributions = np.vstack({tuple(distribution) for distribution in distributions[distributions_are_max]})\n"
+    "return unique_max_distributions")
+TARGETS.append(dict(
+    func="find_unique_max_distributions", lean="find_unique_max_distributions", region="pin", model="uniqueMaxDistributions",
+    params=[("distributions", MAT)], ret=MAT, skeleton=FUMD_TEXT))
+
+# ---- confirm_lb_using_bounded_curvature_row  ->  confirmRow
+TARGETS.append(dict(
+    func="confirm_lb_using_bounded_curvature_row", lean="confirm_lb_using_bounded_curvature_row",
+    params=[("d", N), ("K", MAT), ("DY", MAT), ("max_diam", N)], ret=B, skeleton="...", local_types={"i": N, "j": N},
+    while_bounds=["len(K_max_rows_distance_distributions)", "len(DY_rows_distance_distributions)"],
+    obligations=OBLIGATIONS["confirm_lb_using_bounded_curvature_row"]))
+
+# ---- confirm_lb_using_bounded_curvature  ->  confirmLb
+TARGETS.append(dict(
+    func="confirm_lb_using_bounded_curvature", lean="confirm_lb_using_bounded_curvature",
+    params=[("d", N), ("K", MAT), ("DY", MAT), ("max_diam", N)], ret=B, skeleton="...",
+    obligations=OBLIGATIONS["confirm_lb_using_bounded_curvature"]))
 
 
 BINDINGS = {KEY: [
+    ('AttributeError', 'builtin'),
     ('StopIteration', 'builtin'),
     ('check_assignment_feasibility', 'def check_assignment_feasibility'),
+    ('confirm_lb_using_bounded_curvature', 'def confirm_lb_using_bounded_curvature'),
+    ('confirm_lb_using_bounded_curvature_row', 'def confirm_lb_using_bounded_curvature_row'),
     ('determine_optimal_int_type', 'def determine_optimal_int_type'),
     ('find_largest_size_bounded_curvature', 'def find_largest_size_bounded_curvature'),
+    ('find_unique_max_distributions', 'def find_unique_max_distributions'),
     ('int', 'builtin'),
     ('len', 'builtin'),
     ('list', 'builtin'),
@@ -1528,11 +1482,15 @@ BINDINGS = {KEY: [
     ('np', 'import numpy as np'),
     ('range', 'builtin'),
     ('represent_distance_matrix_rows_as_distributions', 'def represent_distance_matrix_rows_as_distributions'),
+    ('tuple', 'builtin'),
 ]}
 SIGNATURES = {
     'check_assignment_feasibility': 'def check_assignment_feasibility(v_distribution, u_distribution, d)',
     'represent_distance_matrix_rows_as_distributions': 'def represent_distance_matrix_rows_as_distributions(DX, max_d)',
     'find_largest_size_bounded_curvature': 'def find_largest_size_bounded_curvature(DX, diam_X, d)',
+    'find_unique_max_distributions': 'def find_unique_max_distributions(distributions)',
+    'confirm_lb_using_bounded_curvature_row': 'def confirm_lb_using_bounded_curvature_row(d, K, DY, max_diam)',
+    'confirm_lb_using_bounded_curvature': 'def confirm_lb_using_bounded_curvature(d, K, DY, max_diam)',
 }
 
 
